@@ -697,8 +697,7 @@ func c08TimeoutConn(c *Ctx) {
 		// deadline set before delegating: the deadline call dominates the delegate and its argument is time.Now().Add(timeout field)
 		okDl := dl != nil && dl.Block().Dominates(deleg.Block())
 		if okDl {
-			a := Render(dl.Call.Args[0])
-			okDl = a == "(time.Time).Add(time.Now(), p0.ReadTimeout)" || a == "(time.Time).Add(time.Now(), p0.WriteTimeout)"
+			okDl = c08NowPlusField(dl.Call.Args[0], fn, 0)
 		}
 		c.Check(okDl, "timeout-conn", key+" deadline", p.Pos(fn.Pos()), "deadline now+timeout set before every delegate call", "the idle deadline is not (re)armed with now+timeout before delegating")
 	}
@@ -1048,4 +1047,44 @@ func c08IPHelper(hf *ssa.Function) string {
 		}
 	}
 	return ""
+}
+
+// c08NowPlusField: v is time.Now().Add(d) computed at this very call, with d a duration field of fn's receiver (the
+// configured idle timeout) – directly or through a helper `deadlineIn(d) = time.Now().Add(d)`.
+func c08NowPlusField(v ssa.Value, fn *ssa.Function, depth int) bool {
+	call, ok := v.(*ssa.Call)
+	if !ok || depth > 1 {
+		return false
+	}
+	isTimeoutField := func(x ssa.Value) bool {
+		ld, ok := isLoad(x)
+		if !ok {
+			return false
+		}
+		fa, ok := ld.X.(*ssa.FieldAddr)
+		if !ok || fa.X != ssa.Value(fn.Params[0]) {
+			return false
+		}
+		n := NamedOf(ld.Type())
+		return n != nil && n.Obj().Pkg() != nil && n.Obj().Pkg().Path() == "time" && n.Obj().Name() == "Duration"
+	}
+	cal := call.Call.StaticCallee()
+	if MethodIs(cal, "time", "Time", "Add") && len(call.Call.Args) == 2 {
+		now, isNow := call.Call.Args[0].(*ssa.Call)
+		return isNow && CalleeIs(now, "time", "Now") && isTimeoutField(call.Call.Args[1])
+	}
+	// helper(d): its single result is time.Now().Add(<its parameter>)
+	if cal != nil && InRepo(cal) && cal.Blocks != nil && len(cal.Params) == 1 && len(call.Call.Args) == 1 && isTimeoutField(call.Call.Args[0]) {
+		rets := Returns(cal)
+		if len(rets) != 1 {
+			return false
+		}
+		inner, ok := RetVals(rets[0])[0].(*ssa.Call)
+		if !ok || !MethodIs(inner.Call.StaticCallee(), "time", "Time", "Add") || len(inner.Call.Args) != 2 {
+			return false
+		}
+		now, isNow := inner.Call.Args[0].(*ssa.Call)
+		return isNow && CalleeIs(now, "time", "Now") && inner.Call.Args[1] == ssa.Value(cal.Params[0])
+	}
+	return false
 }
